@@ -1897,9 +1897,13 @@ func main() {
 							res.Harness = append(res.Harness, fmt.Sprintf("%s: the tree re-encoding restores a different object", ty))
 						}
 					}
-					if jv := judgeObj(ty, r.obj); len(jv.broken) > 0 && vn == "documented" {
-						// the library's own honest output must satisfy the rules, otherwise the predicates are wrong
+					if jv := judgeObj(ty, in.Obj); len(jv.broken) > 0 && vn == "documented" {
+						// the library's own honest output (as produced, before any encoding) must satisfy the rules,
+						// otherwise the predicates are wrong
 						res.Harness = append(res.Harness, fmt.Sprintf("%s: honest material breaks rules %v", ty, jv.broken))
+					} else if jr := judgeObj(ty, r.obj); len(jr.broken) > 0 && vn == "documented" {
+						docOK = false
+						res.violate(in, cs0, "roundtrip", "roundtrip-differs", fmt.Sprintf("the object restored from the documented encoding of valid material breaks the rules %v", jr.broken), data)
 					}
 				}
 			}
